@@ -14,24 +14,24 @@ for mp in sorted(glob.glob('/verif/seeded/*/meta.json')):
     prev.setdefault(m['property'], []).append(m['what'])
 
 HINTS = {
- 'C01': "anything that makes the state after the SECOND restart differ although the first one was fine; state rebuilt at replay (file references, start positions, record metadata) that differs from the live one in a way only a later truncate/GC + restart exposes; queues whose only trace is a RecordPosition entry written by the open-time GC; payload-less (empty) records; positions close to u64::MAX",
- 'C02': "a crash DURING recovery (open writes position records, fsyncs and unlinks files itself) followed by another open; power loss where a just-created file's directory entry is lost although its data was written; a torn write whose prefix ends inside a frame header; ordering of set_len vs the first write into a new file",
- 'C03': "which file descriptor / which file gets the fsync (old vs new file, directory); fsync replaced by flush on one path only (delete_queue, create_queue, truncate, explicit persist, roll-over, open-time GC); OnDelay bookkeeping (`update_persisted`, the instant compared against); persist skipped when the BufWriter happens to be empty although the OS file is dirty",
- 'C04': "next position after a sequence involving truncate into the future on an EMPTY queue followed by restart and GC; replay of RecordPosition for a queue that has records; positions after an append rejected as Future followed by an accepted one; positions near u64::MAX (saturating/wrapping arithmetic)",
- 'C05': "range() with unusual bounds (Excluded start, Included u64::MAX, start above the last position, start below the first retained one); results right after truncate to exactly the last record; last_record/current_position/summary on queues that were emptied; the Cow borrowed/owned split when a record wraps the ring buffer; ordering of list_queues",
- 'C06': "disk_used_bytes bookkeeping (a counter updated incrementally rather than recomputed); GC after truncate on a queue that has no records in the oldest file while ANOTHER queue was deleted earlier; a file kept because a RecordMeta keeps a file handle after its records were evicted; a truncate that evicts records up to exactly a file boundary",
- 'C07': "the READ side rather than the write side: entries re-assembled from more than 2 frames when a Middle frame has maximal length; the serialisation of the entry itself (name length u16, position u64, per-record length u32) at boundary values - names of 0/1/255/256/65535 bytes, payloads of 0 bytes, batches with thousands of empty payloads; `MultiRecord` iteration over a buffer with trailing bytes",
- 'C08': "stale bytes: a re-used / not-zeroed region behind the write cursor after recovery stopped early (the writer resumes in the middle of a block and old valid frames behind it become reachable later); frames accepted although len exceeds the bytes left in the block; a checksum computed over a different range on the read side for one frame type only",
- 'C09': "what happens to the entries AFTER the damaged one: the reader's state after a corrupt frame in the last frame slot of a block; a damaged Last frame followed by a Full frame; damage in the first frame of a FILE (not just of a block); damage to an entry whose effect is idempotent vs not; `within_record` / partial-entry buffer not cleared in one path",
- 'C10': "arithmetic on untrusted numbers at replay: positions (u64::MAX, 0), lengths, truncate positions far in the future or past, RecordPosition lower than existing records, AppendRecords at a position below the queue's start; directory content: a file name with 20 digits that overflows u64, two files whose numbers differ by a huge gap, a zero-length or 1-byte file in the middle of the run",
- 'C11': "an error on open()/read() of the LAST file, or of a file in the middle, that is mapped to 'no more data'; errors from metadata/len/seek calls used while sizing files at open; an error returned by read after a partial block was already consumed; directory listing errors after some entries were returned; ErrorKind-specific handling (Interrupted, NotFound, PermissionDenied, UnexpectedEof synthesised from a short file)",
- 'C12': "the REPLAY side: records of a batch applied one by one with an early exit / `?` / `continue` that skips the rest silently (a record 'in the past', a duplicate position, an empty payload); a batch with explicit position that partially overlaps positions already present after a crash; validation of the batch done lazily while iterating",
- 'C13': "rejected calls: append at a Past/Future position, append to a missing queue, create_queue of an existing one, delete/truncate of a missing one - look for side effects on the spare/serialisation buffers, on `next_persist` timing state, on the in-memory queue map (entry API inserting defaults), on file handles; no-op truncate (position below start) that still writes/persists",
- 'C14': "anything keyed on the policy or on elapsed time that leaks into LOGICAL results (returned positions, errors, evicted counts, queue contents, list_queues, positions in summaries); GC or position recording made conditional on whether a persist happened or is due; a code path taken only by OnDelay when the delay elapses inside a call; explicit persist() resetting something logical",
- 'C15': "the accounting of padding and headers when an entry is split over frames: off-by-one when a frame ends exactly at a block end; bytes written by a roll-over (nothing is written into the file by set_len); the count returned by truncate when GC re-records positions and THAT rolls over; append with explicit position on an empty queue",
- 'C16': "memory_used vs memory_allocated after: delete_queue, truncate of everything, truncate into the future, re-creation of a queue, many tiny queues; the ring buffer's shrink/grow policy (capacity never released after a burst, or released too eagerly so used > allocated transiently); summary()'s per-queue numbers disagreeing with the totals",
- 'C17': "how names are built and parsed: width/zero padding of the number, prefix/suffix matching (`starts_with` without length check, extra extension), case; what is unlinked at GC or open (names computed rather than remembered); anything created next to the WAL files (temp, lock, marker) or any path joined from untrusted directory entries",
- 'C18': "shared state between queues: the spare buffer / scratch Vec reused across calls; file-reference bookkeeping when two queues have records in the same file and one is truncated; summary() of queue B after operations on A; replay of a delete_queue(A) entry when B was created later with A's name as a prefix; positions of B after A's truncate into the future triggers GC",
+ 'C01': "the Drop / clean-shutdown path (what is flushed when the log is dropped under each policy); `MemQueue::with_next_position` and `ack_position` when the queue already holds records; positions and `start_position` bookkeeping of a queue emptied by truncate then appended to at an explicit position; anything that only differs after the SECOND restart",
+ 'C02': "the writer's resume position after recovery (`into_writer`, `forward`, padding decisions right after open); a crash inside create_queue / delete_queue (not truncate / append); a torn write whose prefix ends inside a 7-byte frame header or exactly at a block end; stale bytes behind the resume point",
+ 'C03': "explicit `persist(Flush)` vs `persist(FlushAndFsync)`; OnDelay interval arithmetic and `update_persisted`; the fsync of the DIRECTORY after a roll-over or after a GC unlink; a persist that is skipped because an internal 'dirty' notion is wrong after roll-over",
+ 'C04': "`create_queue` of a name deleted earlier in the same session (new incarnation is allowed to restart - stay within one incarnation); the position after `truncate(..=u64::MAX)`; `append` with Some(pos) == next exactly across a restart; position bookkeeping of a queue whose records were all evicted by a truncate BELOW its last position + 1",
+ 'C05': "`last_record`, `last_position` / `current_position`, `summary()` fields, `queue_exists`, `list_queues` after delete + re-create; `range(a..=b)` with a > b or a == b; truncate at exactly last position + 1; results right after open for queues known only through position records",
+ 'C06': "the loop in `Directory::gc` / `FileTracker::take_first_unused` (termination condition, 'never delete the current file'); reference counts when `delete_queue` removes a queue holding records in the CURRENT file; GC when the first file is also the current file; a file number reference cloned and kept in a long-lived struct",
+ 'C07': "the serialisation of the entry itself (name length u16, position u64, per-record length u32) at boundary values: names of 1 / 255 / 256 / 65535 bytes, payloads of 0 bytes, batches with thousands of empty payloads; `MultiRecord` iteration over a buffer; the `Buf` chained-chunk path of `append_records` (payload given as several chunks)",
+ 'C08': "the `block_corrupted` flag across a block boundary; a frame whose length reaches exactly the block end; a header accepted although fewer than 7 bytes were left; re-synchronisation after a corrupt frame landing inside zero padding followed by stale bytes",
+ 'C09': "what follows a corrupt frame in the LAST frame slot of a FILE; corruption in the very first frame of the very first file; entries of OTHER queues in the same block behind the damaged frame; a damaged frame of a create_queue entry whose queue later receives appends at automatic positions",
+ 'C10': "allocation sized from an untrusted length (`Vec::with_capacity`, `reserve`, `resize`); panics in `Drop` or in read accessors after a damaged-but-accepted open; arithmetic on positions / lengths / file numbers (0, u64::MAX, huge gaps); directory content: 1-byte file in the middle of the run, 20-digit number overflowing u64, thousands of files",
+ 'C11': "errors from `metadata()` / `file_type()` / `seek` while listing or sizing files at open; a read returning Ok(0) before the block is complete (short file) vs an error; `read_exact` replaced by a manual loop that mishandles one ErrorKind; an error on the LAST file mapped to 'log ends here'",
+ 'C12': "crash points: the BufWriter splitting one entry into several write() calls, roll-over in the middle of a batch; `MultiRecord::new` validation at replay accepting a buffer with trailing garbage or a truncated last record; a batch whose first record is applied before the rest is validated",
+ 'C13': "error paths: create_queue(AlreadyExists), delete/truncate/append on a missing queue, append Past - look for state left in the queue map (entry API inserting defaults), in `next_persist`, in the writer (bytes already handed to the BufWriter before the check), in the spare buffer's capacity; a no-op truncate (position below start) that still runs GC or writes",
+ 'C14': "anything keyed on the policy or on elapsed time that leaks into LOGICAL results (returned positions, errors, evicted counts, queue contents, list_queues); GC or position recording conditional on whether a persist happened or is due; a code path taken only by OnDelay when the delay elapses inside a call; explicit persist() resetting something logical",
+ 'C15': "create_queue / delete_queue / truncate byte counts; padding at the end of a FILE (not just of a block); an entry split into First / Middle / Last (three headers); counts when the BufWriter is bypassed for large frames; the first call after open",
+ 'C16': "memory_allocated_bytes: `RollingBuffer` capacity growth / shrink thresholds, `Vec<RecordMeta>` capacity, capacity released too eagerly (used > allocated transiently) or never; per-queue name accounting on delete + re-create; `summary()` per-queue numbers vs the totals",
+ 'C17': "the name of the file created at roll-over (width / zero padding of the number when it grows), the path computed at GC; a directory entry whose name is not valid UTF-8; hidden files `.wal-...`; names differing only in case or with leading/trailing spaces; anything created next to the WAL files",
+ 'C18': "shared state between queues: the spare / scratch buffers reused across calls; file-reference bookkeeping when two queues have records in the same file and one is truncated or deleted; `summary()` / `last_record` of queue B after operations on A; B's positions after A's truncate-into-the-future triggers GC",
 }
 
 for i in range(1, 19):
